@@ -289,6 +289,131 @@ def coil_consts(src):
     return (num(m1.group(1)), num(m1.group(2)), num(m2.group(1)), num(m2.group(2)), int(m3.group(1)), int(m3.group(2)))
 
 
+
+# ------------------------------------------------------------------ PDU encoders as put programs
+def split_stmts(body):
+    """top-level statements of a block: `...;` and `for ... { ... }`"""
+    stmts, depth, cur = [], 0, ""
+    for c in body:
+        if c in "{([":
+            depth += 1
+        elif c in "})]":
+            depth -= 1
+        cur += c
+        if depth == 0 and (c == ";" or (c == "}" and cur.strip().startswith("for "))):
+            t = " ".join(cur.split())
+            if t and t != ";":
+                stmts.append(t)
+            cur = ""
+    if cur.strip():
+        raise Skip("trailing text in block: %r" % cur.strip()[:60])
+    return stmts
+
+
+def enc_prog(src, fn_name, subject):
+    fn = block_after(src, r"fn\s+%s\s*\(" % fn_name)
+    stmts_head = fn[:fn.index("match")]
+    if not re.search(r"buf\.put_u8\(\s*%s\.function_code\(\)\.value\(\)\s*\)\s*;" % subject, stmts_head):
+        raise Skip("%s: the function code is not written first" % fn_name)
+    if len([t for t in split_stmts(re.sub(r"use [^;]*;", "", stmts_head)) if t]) != 1:
+        raise Skip("%s: more than the function code is written before the match" % fn_name)
+    m = block_after(fn, r"match\s+%s\s*\{" % subject)
+    after = fn[fn.index(m) + len(m):].strip().lstrip("}").strip()
+    if after:
+        raise Skip("%s: statements after the match" % fn_name)
+    rows = []
+    for p, e in split_arms(m):
+        e = e.strip()
+        if not (e.startswith("{") and e.endswith("}")):
+            raise Skip("%s: arm body is not a block: %s" % (fn_name, e[:60]))
+        prog_for = {}
+        for alt in p.split("|"):
+            alt = alt.strip()
+            ma = re.fullmatch(r"([A-Z][A-Za-z]+)(\((.*)\))?", alt)
+            if not ma:
+                raise Skip("%s: unrecognised pattern %s" % (fn_name, alt))
+            args = [a.strip() for a in (ma.group(3) or "").split(",")] if ma.group(3) else []
+            idx = {a: i for i, a in enumerate(args) if a != "_"}
+            lens = {}                                  # let-bound names standing for field.len()
+            prog = ["PFc"]
+
+            def field(name):
+                if name not in idx:
+                    raise Skip("%s: %s is not a field of %s" % (fn_name, name, alt))
+                return idx[name]
+
+            def length_of(t):
+                t = t.strip()
+                if t in lens:
+                    return lens[t]
+                ml = re.fullmatch(r"(\w+)\.len\(\)", t)
+                if ml:
+                    return field(ml.group(1))
+                raise Skip("%s: not a length: %s" % (fn_name, t))
+
+            def expr(t):
+                t = t.strip()
+                mm = re.fullmatch(r"\*(\w+)", t)
+                if mm:
+                    return "EArg %d" % field(mm.group(1))
+                mm = re.fullmatch(r"bool_to_coil\(\s*\*(\w+)\s*\)", t)
+                if mm:
+                    return "ECoil %d" % field(mm.group(1))
+                mm = re.fullmatch(r"if \*(\w+) \{ 0xFF \} else \{ 0x00 \}", t)
+                if mm:
+                    return "ERun %d" % field(mm.group(1))
+                mm = re.fullmatch(r"u16_len\((.*)\)", t)
+                if mm:
+                    return "ELen16 %d" % length_of(mm.group(1))
+                mm = re.fullmatch(r"u8_len\(\s*packed_coils_size\(\s*(\w+)\s*\)\s*\)", t)
+                if mm:
+                    return "EPacked8 %d" % field(mm.group(1))
+                mm = re.fullmatch(r"u8_len\((.*)\* 2\s*\)", t)
+                if mm:
+                    return "ELen2x8 %d" % length_of(mm.group(1))
+                mm = re.fullmatch(r"2 \+ u8_len\((.*)\)", t)
+                if mm:
+                    return "E2PlusLen8 %d" % length_of(mm.group(1))
+                raise Skip("%s: unrecognised expression: %s" % (fn_name, t[:60]))
+
+            for st in split_stmts(e[1:-1]):
+                mm = re.fullmatch(r"let (\w+) = (\w+)\.len\(\);", st)
+                if mm:
+                    lens[mm.group(1)] = field(mm.group(2))
+                    continue
+                mm = re.fullmatch(r"buf\.put_u16\((.*)\);", st)
+                if mm:
+                    prog.append("PU16 (%s)" % expr(mm.group(1)))
+                    continue
+                mm = re.fullmatch(r"buf\.put_u8\((.*)\);", st)
+                if mm:
+                    prog.append("PU8 (%s)" % expr(mm.group(1)))
+                    continue
+                mm = re.fullmatch(r"encode_packed_coils\(\s*buf\s*,\s*(\w+)\s*\);", st)
+                if mm:
+                    prog.append("PCoils %d" % field(mm.group(1)))
+                    continue
+                mm = re.fullmatch(r"for (\w+) in (\w+)(\.as_ref\(\)|\.iter\(\))? \{ buf\.put_u16\(\*(\w+)\); \}", st)
+                if mm and mm.group(1) == mm.group(4):
+                    prog.append("PWords %d" % field(mm.group(2)))
+                    continue
+                mm = re.fullmatch(r"buf\.put_slice\(\s*(\w+)(\.as_ref\(\))?\s*\);", st)
+                if mm:
+                    prog.append("PSlice %d" % field(mm.group(1)))
+                    continue
+                raise Skip("%s: unrecognised statement in %s: %s" % (fn_name, alt, st[:70]))
+            rows.append((ma.group(1), prog))
+    return rows
+
+
+def len_helpers(src):
+    """u16_len / u8_len: checked narrowing (debug assertion, truncating cast) -- the shape eval_pexp assumes"""
+    for name, ty in (("u16_len", "u16"), ("u8_len", "u8")):
+        body = block_after(src, r"fn\s+%s\s*\(\s*len\s*:\s*usize\s*\)\s*->\s*%s\s*\{" % (name, ty))
+        if not re.fullmatch(r"\s*debug_assert!\(\s*len\s*<=\s*%s::MAX\.into\(\)\s*\)\s*;\s*len as %s\s*" % (ty, ty), body):
+            raise Skip("%s changed shape" % name)
+    return (65535, 255)
+
 # ------------------------------------------------------------------ emit
 def s2l(name):
     return 's2l "%s"' % name
@@ -365,6 +490,10 @@ def main():
         slave = ""
     piece("gen_SLAVE", "N * N * N * N", "(0, 1, 247, 255)", lambda: slave_consts(slave), lambda t: "(%d, %d, %d, %d)" % t)
     piece("gen_COIL", "N * N * N * N * N * N", "(65280, 0, 65280, 0, 7, 8)", lambda: coil_consts(codec), lambda t: "(%d, %d, %d, %d, %d, %d)" % t)
+    emit_prog = lambda rows: "[" + "; ".join("(%s, [%s])" % (s2l(n), "; ".join(pr)) for n, pr in rows) + "]"
+    piece("gen_req_enc_prog", "enc_table", "req_enc_prog_model", lambda: enc_prog(codec, "encode_request_pdu", "request"), emit_prog)
+    piece("gen_rsp_enc_prog", "enc_table", "rsp_enc_prog_model", lambda: enc_prog(codec, "encode_response_pdu", "response"), emit_prog)
+    piece("gen_LEN_MAX", "N * N", "(65535, 255)", lambda: len_helpers(codec), lambda t: "(%d, %d)" % t)
     os.makedirs(os.path.dirname(OUT), exist_ok=True)
     new = "\n".join(out) + "\n"
     old = open(OUT).read() if os.path.exists(OUT) else None
